@@ -25,6 +25,11 @@ def to_steps(s):
         rec = {"fam": fam, "slot": 1}
         rec.update({k: v for k, v in c.items() if k != "fam"})
         steps.append({"ev": "Place", "node": n, "rec": rec})
+    u = s.get("update", {"node": 0})
+    if u.get("node", 0) != 0:
+        rec = {"fam": fam, "slot": 1}
+        rec.update({k: v for k, v in u["c"].items() if k != "fam"})
+        steps.append({"ev": "Place", "node": u["node"], "rec": rec})
     if steps:
         steps.append({"ev": "Spoof", "from": steps[0]["node"], "to": 1 if steps[0]["node"] != 1 else 2, "holder": "self"})
         steps.append({"ev": "Spoof", "from": steps[0]["node"], "to": 1 if steps[0]["node"] != 1 else 2, "holder": "stranger"})
